@@ -341,6 +341,14 @@ func scenarios() []hx.Scenario {
 			Mk:   func() *mc.Exec { return mkExec(sc, maxTTL, 1500*time.Millisecond) },
 		})
 	}
+	// two overlapping Stop calls (each must return only after the cleaner exited),
+	// also while the cleaner is inside a Cleanup
+	for _, w := range [][]op{{S1}, {S1, Z15}, {Z15}} {
+		for _, st := range [][][]op{{{X}, {X}}, {{Z15, X}, {Z15, X}}, {{Z15, X}, {Z10, Z5, X}}, {{X}, {Z15, X}}} {
+			scripts := append([][]op{w, {G}}, st...)
+			add(scripts, 0, false)
+		}
+	}
 	for _, w := range writer {
 		for _, r := range reader {
 			for ti, t := range third {
